@@ -132,7 +132,15 @@ func (c *Channel) registerSubChannelFunding(id channel.ID, bals channel.Balances
 		if len(cur) != len(bals) || cur.AssertGreaterOrEqual(bals) != nil {
 			return false
 		}
-		return cur.Sub(bals).Equal(cu.State.Balances)
+		if !cur.Sub(bals).Equal(cu.State.Balances) {
+			return false
+		}
+		// All other sub-allocations must stay as they are.
+		after := cu.State.Clone()
+		if err := after.RemoveSubAlloc(subAlloc); err != nil {
+			return false
+		}
+		return channel.SubAllocsEqual(c.machine.State().Locked, after.Locked)
 	}
 	ui := newUpdateInterceptor(filter)
 	c.subChannelFundings.Register(id, ui)
@@ -140,11 +148,18 @@ func (c *Channel) registerSubChannelFunding(id channel.ID, bals channel.Balances
 
 func (c *Channel) registerSubChannelSettlement(id channel.ID, bals [][]channel.Bal) {
 	filter := func(cu ChannelUpdate) bool {
-		_, containedBefore := c.machine.State().SubAlloc(id)
+		subAlloc, containedBefore := c.machine.State().SubAlloc(id)
 		_, containedAfter := cu.State.SubAlloc(id)
 		equalBalances := c.machine.State().Balances.Add(bals).Equal(cu.State.Balances)
-
-		return containedBefore && !containedAfter && equalBalances
+		if !containedBefore || containedAfter || !equalBalances {
+			return false
+		}
+		// All other sub-allocations must stay as they are.
+		before := c.machine.State().Clone()
+		if err := before.RemoveSubAlloc(subAlloc); err != nil {
+			return false
+		}
+		return channel.SubAllocsEqual(before.Locked, cu.State.Locked)
 	}
 	ui := newUpdateInterceptor(filter)
 	c.subChannelWithdrawals.Register(id, ui)
